@@ -177,6 +177,10 @@ pub struct Outcome {
     pub builder_before_balance: Option<TransactionBuilder>,
     /// key hashes the caller declared as additional signers on the inputs builder
     pub extra_signers: Vec<Vec<u8>>,
+    /// some input was first registered with a Plutus witness and then re-registered as a key input
+    pub superseded: bool,
+    /// the caller supplied a datum as bytes in a spelling the library itself would not choose (kept verbatim)
+    pub verbatim_datums: bool,
     /// the builder's inputs at the time calc_script_data_hash was called
     pub inputs_at_hash_time: Option<Vec<(Vec<u8>, u64)>>,
 }
@@ -195,6 +199,10 @@ pub struct Scn<'a> {
     pub used_langs: Vec<u8>,
     pub panics: Vec<PanicRec>,
     pub extra_signers: Vec<Vec<u8>>,
+    /// some input was first registered with a Plutus witness and then re-registered as a key input
+    pub superseded: bool,
+    /// the caller supplied a datum as bytes in a spelling the library itself would not choose (kept verbatim)
+    pub verbatim_datums: bool,
 }
 
 pub fn val_to_csl(v: &Val) -> Value {
@@ -215,7 +223,7 @@ pub fn val_to_csl(v: &Val) -> Value {
 impl<'a> Scn<'a> {
     pub fn new(r: &'a mut Rng, ring: &'a KeyRing, f: Focus) -> Scn<'a> {
         let net = r.below(2) as u8;
-        Scn { r, ring, f, utxos: vec![], log: vec![], markers: vec![], next_marker: 1000, next_tx: 1, declared_refs: vec![], net, used_langs: vec![], panics: vec![], extra_signers: vec![] }
+        Scn { r, ring, f, utxos: vec![], log: vec![], markers: vec![], next_marker: 1000, next_tx: 1, declared_refs: vec![], net, used_langs: vec![], panics: vec![], extra_signers: vec![], superseded: false, verbatim_datums: false }
     }
     fn p(&mut self, num: u64) -> bool {
         self.r.below(16) < num
@@ -326,6 +334,30 @@ impl<'a> Scn<'a> {
             out.set_script_ref(s);
         }
         TransactionUnspentOutput::new(&Self::tx_input(&(u.txid.clone(), u.ix)), &out)
+    }
+    /// now and then the UTxO `i` itself carries a script nobody needs: spending it is charged the
+    /// reference-script fee exactly like a reference input (ledger: inputs and reference inputs together)
+    pub fn carried_script(&mut self, i: usize) -> Option<ScriptRef> {
+        if !(self.p(self.f.refs) && self.r.bool()) {
+            return None;
+        }
+        let sref = if self.r.below(4) == 0 {
+            let ns = NativeScript::new_timelock_start(&TimelockStart::new_timelockstart(&BigNum::from(1_000 + self.r.below(1 << 40))));
+            self.utxos[i].ref_script_size = ns.to_bytes().len() as u64;
+            ScriptRef::new_native_script(&ns)
+        } else {
+            let n = 20 + self.r.usize(900);
+            let bytes = self.r.bytes(n);
+            let ps = match self.r.below(3) {
+                0 => PlutusScript::new(bytes),
+                1 => PlutusScript::new_v2(bytes),
+                _ => PlutusScript::new_v3(bytes),
+            };
+            self.utxos[i].ref_script_size = ps.bytes().len() as u64;
+            ScriptRef::new_plutus_script(&ps)
+        };
+        self.log.push(format!("utxo {}#{} carries a script of {} bytes", hx(&self.utxos[i].txid[..4]), self.utxos[i].ix, self.utxos[i].ref_script_size));
+        Some(sref)
     }
     pub fn marker_data(&mut self) -> (u64, PlutusData) {
         let m = self.next_marker;
@@ -656,6 +688,21 @@ pub fn run_scenario(r: &mut Rng, ring: &KeyRing, f: Focus) -> Option<Outcome> {
                     } else {
                         *need_assets.entry((pid.clone(), name.clone())).or_insert(0) -= q as i128;
                     }
+                    if s.p(2) {
+                        // a second call for the same asset accumulates: +q then -q nets to zero (which may be
+                        // refused or dropped, never emitted), other amounts net to a smaller mint / burn
+                        let q2 = if s.r.bool() { q } else { 1 + s.r.below(1000) };
+                        let amt2 = if burn { Int::new(&BigNum::from(q2)) } else { Int::new_negative(&BigNum::from(q2)) };
+                        let res2 = g!(s, "mint.add_asset(again)", mb.add_asset(&wit, &AssetName::new(name.clone()).unwrap(), &amt2));
+                        s.log.push(format!("mint {} {} again {}{} -> {}", hx(&pid[..4]), hx(&name), if burn { "+" } else { "-" }, q2, res2.as_ref().map(ok_str).unwrap_or("PANIC".into())));
+                        if let Some(Ok(())) = res2 {
+                            if burn {
+                                *need_assets.entry((pid.clone(), name.clone())).or_insert(0) -= q2 as i128;
+                            } else {
+                                *need_assets.entry((pid.clone(), name.clone())).or_insert(0) += q2 as i128;
+                            }
+                        }
+                    }
                 }
             }
         }
@@ -976,7 +1023,20 @@ pub fn run_scenario(r: &mut Rng, ring: &KeyRing, f: Focus) -> Option<Outcome> {
     if s.p(3) {
         // extra witness datums: sometimes the very datum a Plutus spend will supply too (7000..7002)
         for _ in 0..1 + s.r.below(2) {
-            let d = PlutusData::new_integer(&BigInt::from_str(&(if s.r.bool() { 7000 + s.r.below(3) } else { 9000 + s.r.below(3) }).to_string()).unwrap());
+            let d = if s.p(4) {
+                // the spelled variants a Plutus spend may supply too (same value, other bytes)
+                let dv = 7000 + s.r.below(3);
+                let mut b = if s.r.bool() { vec![0xd8, 0x79, 0x81] } else { vec![0xd8, 0x79, 0x9f] };
+                b.extend_from_slice(&[0x19, (dv >> 8) as u8, dv as u8]);
+                if b[2] == 0x9f {
+                    b.push(0xff);
+                } else {
+                    s.verbatim_datums = true;
+                }
+                PlutusData::from_bytes(b).unwrap()
+            } else {
+                PlutusData::new_integer(&BigInt::from_str(&(if s.r.bool() { 7000 + s.r.below(3) } else { 9000 + s.r.below(3) }).to_string()).unwrap())
+            };
             g!(s, "add_extra_witness_datum", tb.add_extra_witness_datum(&d));
             s.log.push("extra witness datum".into());
         }
@@ -1020,7 +1080,21 @@ pub fn run_scenario(r: &mut Rng, ring: &KeyRing, f: Focus) -> Option<Outcome> {
                 let res = if use_direct_api {
                     g!(s, "add_regular_input", tb.add_regular_input(&addr, &Scn::tx_input(&o), &val_to_csl(&val)))
                 } else {
-                    let u = s.csl_utxo(i, None, None);
+                    let carried = s.carried_script(i);
+                    let u = s.csl_utxo(i, None, carried.as_ref());
+                    if s.p(1) {
+                        // a caller's slip, corrected: the UTxO is first registered with a Plutus witness and
+                        // then registered again as the key input it is (the later call replaces the earlier)
+                        let si = s.r.usize(ring.plutus.len());
+                        let (m_stale, red) = s.redeemer(RedeemerTag::new_spend());
+                        let wit = PlutusWitness::new_with_ref_without_datum(&PlutusScriptSource::new(&ring.plutus[si]), &red);
+                        // (the address-less call: add_plutus_script_utxo refuses a key address)
+                        let _ = g!(s, "inputs.add_plutus_script_input(superseded)", inputs_b.add_plutus_script_input(&wit, &u.input(), &u.output().amount()));
+                        s.log.push(format!("key input first registered with a plutus witness (marker {}), then re-registered as a key input", m_stale));
+                        s.superseded = true;
+                        // the caller goes on as for any Plutus transaction (collateral, script data hash)
+                        any_plutus = true;
+                    }
                     g!(s, "inputs.add_regular_utxo", inputs_b.add_regular_utxo(&u))
                 };
                 s.log.push(format!("key input key{} {}#{} coin={} -> {}", k, hx(&o.0[..4]), o.1, val.coin, res.as_ref().map(ok_str).unwrap_or("PANIC".into())));
@@ -1039,7 +1113,8 @@ pub fn run_scenario(r: &mut Rng, ring: &KeyRing, f: Focus) -> Option<Outcome> {
                 if use_direct_api {
                     g!(s, "add_bootstrap_input", tb.add_bootstrap_input(&ring.byron[b].addr, &Scn::tx_input(&o), &val_to_csl(&val)));
                 } else {
-                    let u = s.csl_utxo(i, None, None);
+                    let carried = s.carried_script(i);
+                    let u = s.csl_utxo(i, None, carried.as_ref());
                     let _ = g!(s, "inputs.add_regular_utxo(byron)", inputs_b.add_regular_utxo(&u));
                 }
                 s.log.push(format!("byron input b{} {}#{} coin={}", b, hx(&o.0[..4]), o.1, val.coin));
@@ -1078,7 +1153,21 @@ pub fn run_scenario(r: &mut Rng, ring: &KeyRing, f: Focus) -> Option<Outcome> {
                 let si = s.r.usize(ring.plutus.len());
                 let addr = s.script_address(&ring.plutus[si].hash());
                 let i = s.new_utxo(&addr, val.clone());
-                let datum = PlutusData::new_integer(&BigInt::from_str(&(7000 + s.r.below(3)).to_string()).unwrap());
+                // three values; now and then the same VALUE in two CBOR spellings (definite / indefinite
+                // list, kept verbatim by from_bytes): different bytes, different datum hashes
+                let dv = 7000 + s.r.below(3);
+                let datum = if s.p(5) {
+                    let mut b = if s.r.bool() { vec![0xd8, 0x79, 0x81] } else { vec![0xd8, 0x79, 0x9f] };
+                    b.extend_from_slice(&[0x19, (dv >> 8) as u8, dv as u8]);
+                    if b[2] == 0x9f {
+                        b.push(0xff);
+                    } else {
+                        s.verbatim_datums = true;
+                    }
+                    PlutusData::from_bytes(b).unwrap()
+                } else {
+                    PlutusData::new_integer(&BigInt::from_str(&dv.to_string()).unwrap())
+                };
                 let datum_mode = s.r.below(3); // 0 witness datum, 1 inline datum, 2 datum via reference input
                 s.utxos[i].inline_datum = datum_mode == 1;
                 if datum_mode != 1 {
@@ -1292,8 +1381,9 @@ pub fn run_scenario(r: &mut Rng, ring: &KeyRing, f: Focus) -> Option<Outcome> {
         v
     };
     let mut offered_csl = TransactionUnspentOutputs::new();
-    for i in &offered {
-        offered_csl.add(&s.csl_utxo(*i, None, None));
+    for i in offered.clone() {
+        let carried = s.carried_script(i);
+        offered_csl.add(&s.csl_utxo(i, None, carried.as_ref()));
     }
     let mut cc = ChangeConfig::new(&change_addr);
     if s.p(2) {
@@ -1362,6 +1452,8 @@ pub fn run_scenario(r: &mut Rng, ring: &KeyRing, f: Focus) -> Option<Outcome> {
         collateral_op,
         builder_before_balance: Some(tb_before),
         extra_signers: s.extra_signers,
+        superseded: s.superseded,
+        verbatim_datums: s.verbatim_datums,
     })
 }
 
@@ -1409,11 +1501,34 @@ pub fn sign_tx(tx: &Transaction, keys: &std::collections::BTreeSet<Vec<u8>>, byr
 
 /// key hashes named by ScriptPubkey nodes of the native scripts present in the witness set or declared as reference scripts
 pub fn native_script_signers(tx: &Transaction, o: &Outcome, ring: &KeyRing) -> std::collections::BTreeSet<Vec<u8>> {
+    // read off the script's own bytes with the independent reader (not with the library's
+    // NativeScript -> key-hashes conversion, which is part of what is being judged)
+    fn walk(it: &vkit::cbor::Item, out: &mut std::collections::BTreeSet<Vec<u8>>) {
+        if let Some(a) = it.as_arr() {
+            match a.first().and_then(|t| t.as_u64()) {
+                Some(0) => {
+                    if let Some(h) = a.get(1).and_then(|h| h.as_bytes()) {
+                        out.insert(h.to_vec());
+                    }
+                }
+                Some(1) | Some(2) => {
+                    if let Some(xs) = a.get(1).and_then(|x| x.as_arr()) {
+                        xs.iter().for_each(|x| walk(x, out));
+                    }
+                }
+                Some(3) => {
+                    if let Some(xs) = a.get(2).and_then(|x| x.as_arr()) {
+                        xs.iter().for_each(|x| walk(x, out));
+                    }
+                }
+                _ => {}
+            }
+        }
+    }
     let mut out = std::collections::BTreeSet::new();
     let mut add = |ns: &NativeScript| {
-        let ks = Ed25519KeyHashes::from(ns);
-        for i in 0..ks.len() {
-            out.insert(ks.get(i).to_bytes());
+        if let Ok(it) = vkit::cbor::parse(&ns.to_bytes()) {
+            walk(&it, &mut out);
         }
     };
     if let Some(nss) = tx.witness_set().native_scripts() {
